@@ -34,6 +34,11 @@ type Obligation struct {
 	Reason     string   `json:"reason,omitempty"` // from the table that classified it
 	Nontrivial bool     `json:"-"`
 	Variant    string   `json:"variant,omitempty"` // GOOS of the build variant that produced it (thorough tier)
+	Shape      string   `json:"shape,omitempty"`   // name-independent address (see shapes.go)
+	ShapeSeed  string   `json:"-"`
+	LocalSeed  string   `json:"-"`                     // fingerprint of the construct itself (a loop's blocks)
+	ShapeLocal string   `json:"shape_local,omitempty"` // rule ~ function name ~ construct fingerprint ~ ordinal
+	ByShape    bool     `json:"matched_by_shape,omitempty"`
 }
 
 // Check collects the obligations of one property run.
@@ -95,6 +100,11 @@ type tableRow struct {
 	What   string `json:"what,omitempty"`
 	Input  string `json:"input,omitempty"`
 	Commit string `json:"commit,omitempty"`
+	// name-independent address of the construct the row was written for
+	Shape string `json:"shape,omitempty"`
+	// same function name, same construct (by its own fingerprint): survives edits
+	// elsewhere in the function and a renamed construct
+	ShapeLocal string `json:"shape_local,omitempty"`
 }
 
 type Tables struct {
@@ -186,6 +196,34 @@ func findRowMode(rows []tableRow, prop, key string, mode int) *tableRow {
 // Classify maps raw verdicts to final ones using the committed tables and
 // applies the floors.
 func (c *Check) Classify(t *Tables) {
+	c.assignShapes()
+	live := map[string]bool{}
+	for _, o := range c.Obs {
+		live[o.Key] = true
+	}
+	// a row whose key matches nothing on this run but whose shape matches o: the
+	// same code under another name
+	byShape := func(rows []tableRow, o *Obligation) *tableRow {
+		if o.Shape == "" && o.ShapeLocal == "" {
+			return nil
+		}
+		for _, mode := range []int{1, 2} {
+			for i := range rows {
+				r := &rows[i]
+				if live[r.Key] {
+					continue
+				}
+				if !(r.Shape != "" && r.Shape == o.Shape) && !(r.ShapeLocal != "" && r.ShapeLocal == o.ShapeLocal) {
+					continue
+				}
+				named := r.Property != "*" && (r.Property == c.Prop || strings.Contains(","+r.Property+",", ","+c.Prop+","))
+				if (mode == 1 && named) || (mode == 2 && r.Property == "*") {
+					return r
+				}
+			}
+		}
+		return nil
+	}
 	for _, o := range c.Obs {
 		switch o.Verdict {
 		case Flag:
@@ -193,23 +231,39 @@ func (c *Check) Classify(t *Tables) {
 			for _, mode := range []int{1, 2} { // rows naming this property first, then wildcard rows
 				if r := findRowMode(knownOnly(t.Known), c.Prop, o.Key, mode); r != nil {
 					o.Verdict, o.Reason = Known, r.What
+					recordShape("known_findings", r, o)
 				} else if r := findRowMode(t.Exceptions, c.Prop, o.Key, mode); r != nil {
 					o.Verdict, o.Reason = Exception, r.Reason
+					recordShape("exceptions", r, o)
 				} else if r := findRowMode(t.Baseline, c.Prop, o.Key, mode); r != nil {
 					o.Verdict, o.Reason = Baseline, r.Reason
+					recordShape("baseline", r, o)
 				} else {
 					continue
 				}
 				break
+			}
+			if o.Verdict == Violation {
+				if r := byShape(knownOnly(t.Known), o); r != nil {
+					o.Verdict, o.Reason, o.ByShape = Known, r.What+" [row "+r.Key+" matched by shape: same code under another name]", true
+				} else if r := byShape(t.Exceptions, o); r != nil {
+					o.Verdict, o.Reason, o.ByShape = Exception, r.Reason+" [row "+r.Key+" matched by shape: same code under another name]", true
+				} else if r := byShape(t.Baseline, o); r != nil {
+					o.Verdict, o.Reason, o.ByShape = Baseline, r.Reason+" [row "+r.Key+" matched by shape]", true
+				}
 			}
 		case Undecided:
 			// An undecided obligation may be excepted by name with a reason
 			// (an idiom confirmed by reading); otherwise it fails.
 			if r := findRow(t.Exceptions, c.Prop, o.Key); r != nil {
 				o.Verdict, o.Reason = Exception, r.Reason
+				recordShape("exceptions", r, o)
+			} else if r := byShape(t.Exceptions, o); r != nil {
+				o.Verdict, o.Reason, o.ByShape = Exception, r.Reason+" [row "+r.Key+" matched by shape: same code under another name]", true
 			}
 		}
 	}
+	flushShapes()
 	// floors: number of obligations per rule must not fall below what was
 	// confirmed by hand.
 	perRule := map[string]int{}
